@@ -87,6 +87,72 @@ Example C07_values : go_quorum 1 = 1 /\ go_quorum 3 = 3 /\ go_quorum 4 = 3 /\ go
   /\ sol_quorum 19 = 13 /\ ral_quorum 19 = 13.
 Proof. vm_compute. repeat split; reflexivity. Qed.
 
+(* ---- X11: governance.ral parseAndVerifyVAA translated IN FULL (gen/x_ralverify.py -> gen/ExtractedRalVerify.v: every statement, the
+   signature loop as a Fixpoint on fuel with its `mut` locals as state, getGuardiansInfo, keccak256! / ethEcRecover! as oracles).
+   RalVerifyModel.ral_source = that generated function applied to the contract state (current / previous set with their indices,
+   expiry, block time).  For EVERY data, state, flag and oracles it equals the hand model: Contracts.ral_parse (C04's layout model)
+   + set selection + governance index test + size and quorum tests with the NODE's threshold + the signature loop. *)
+From Coq Require Strings.Byte.
+From WH Require lib.Ralph model.Vaa model.Contracts model.RalVerifyModel proofs.RalVerifyProofs.
+
+Theorem C07_ral_source_is_the_hand_model : forall keccak ecrecover s gov data,
+  RalVerifyModel.ral_source keccak ecrecover s gov data =
+  option_map RalVerifyModel.rets_of (RalVerifyModel.ral_accepts keccak ecrecover s gov data).
+Proof. exact RalVerifyProofs.ral_source_eq. Qed.
+
+(* accepted (with these return values) exactly when: the bytes parse, a governance VAA names the current set, the named set is the
+   current one or the unexpired previous one, it is not empty, the NODE's quorum for its size is met by the signature count, the
+   guardian indices are strictly ascending from -1 and every signature (recovery id + 27) recovers, over keccak(keccak(body)), to the
+   20-byte key at 1 + 20 * index of the stored set; in every other case the VM aborts *)
+Theorem C07_ral_source_accepts_iff : forall keccak ecrecover s gov data rets,
+  RalVerifyModel.ral_source keccak ecrecover s gov data = Some rets <->
+  exists r g n, Contracts.ral_parse data = Some r /\ (gov = true -> Contracts.rv_gsidx r = RalVerifyModel.gs_cur_idx s) /\
+    RalVerifyModel.guardians_for s (Contracts.rv_gsidx r) = Some g /\ RalVerifyModel.set_size g = Some n /\ n <> 0 /\
+    go_quorum n <= Contracts.rv_numsigs r /\
+    RalVerifyModel.recs_ok ecrecover (keccak (keccak (Contracts.rv_hashed r))) g (-1) (Contracts.rv_sig_records r) = true /\
+    rets = (Ralph.RZ (Contracts.rv_echain r) :: Ralph.RZ (Contracts.rv_tchain r) :: Ralph.RB (Contracts.rv_eaddr r) ::
+            Ralph.RZ (Contracts.rv_seq r) :: Ralph.RB (Contracts.rv_payload r) :: nil)%list.
+Proof. exact RalVerifyProofs.ral_source_accepts_iff. Qed.
+
+(* the decision of the fully translated function is ral_parse_and_verify (the separately translated guards around the quorum test,
+   theorems above) with its oracle bit := the verdict of the translated signature loop: one function, not two readings *)
+Theorem C07_ral_source_decision_is_parse_and_verify : forall keccak ecrecover s gov data r g n,
+  Contracts.ral_parse data = Some r -> RalVerifyModel.guardians_for s (Contracts.rv_gsidx r) = Some g -> RalVerifyModel.set_size g = Some n ->
+  RalVerifyProofs.is_some (RalVerifyModel.ral_source keccak ecrecover s gov data) =
+  ral_parse_and_verify ral_version_byte ral_version_byte (Contracts.rv_gsidx r) (RalVerifyModel.gs_cur_idx s) n (Contracts.rv_numsigs r) gov
+    (RalVerifyModel.recs_ok ecrecover (keccak (keccak (Contracts.rv_hashed r))) g (-1) (Contracts.rv_sig_records r)).
+Proof. exact RalVerifyProofs.ral_source_decision. Qed.
+
+Module X11Example.
+Import List ListNotations Coq.Strings.Byte Ralph Vaa RalVerifyModel.
+(* toy oracles: the "address" of a signature is its first 20 bytes *)
+Definition toy_keccak (b : list byte) : list byte := firstn 32 (b ++ repeat x00 32).
+Definition toy_recover (h s : list byte) : option (list byte) := if (length h =? 32)%nat then Some (firstn 20 s) else None.
+Definition st : ral_gstate :=
+  {| gs_cur_idx := 3; gs_cur := x04 :: repeat x11 20 ++ repeat x22 20 ++ repeat x33 20 ++ repeat x44 20;
+     gs_prev_idx := 2; gs_prev := x01 :: repeat x11 20; gs_now := 50; gs_prev_exp := 40 |}.
+Definition sg (i : Z) (b : byte) : sig := {| s_idx := i; s_data := repeat b 64 ++ [x01] |}.
+Definition v (idx : Z) (ss : list sig) : vaa :=
+  {| version := 1; gsidx := idx; sigs := ss; ts := 1700000000; tns := 0; nonce := 7; echain := 5; tchain := 0; eaddr := repeat xab 32;
+     seq := 42; cl := 1; payload := [x07] |}.
+Example C07_ral_source_example :
+  (* 3 of 4 in ascending order: accepted, the node's fields are handed back *)
+  ral_source toy_keccak toy_recover st true (marshal (v 3 [sg 0 x11; sg 2 x33; sg 3 x44])) = Some [RZ 5; RZ 0; RB (repeat xab 32); RZ 42; RB [x07]] /\
+  (* 2 of 4: below the quorum *)
+  ral_source toy_keccak toy_recover st false (marshal (v 3 [sg 0 x11; sg 2 x33])) = None /\
+  (* the same guardian three times / descending order / a key of another slot *)
+  ral_source toy_keccak toy_recover st false (marshal (v 3 [sg 0 x11; sg 0 x11; sg 0 x11])) = None /\
+  ral_source toy_keccak toy_recover st false (marshal (v 3 [sg 2 x33; sg 0 x11; sg 3 x44])) = None /\
+  ral_source toy_keccak toy_recover st false (marshal (v 3 [sg 0 x11; sg 1 x33; sg 3 x44])) = None /\
+  (* the previous set: expired here; not expired: accepted unless it is a governance VAA *)
+  ral_source toy_keccak toy_recover st false (marshal (v 2 [sg 0 x11])) = None /\
+  ral_source toy_keccak toy_recover {| gs_cur_idx := 3; gs_cur := gs_cur st; gs_prev_idx := 2; gs_prev := gs_prev st; gs_now := 40; gs_prev_exp := 40 |}
+    false (marshal (v 2 [sg 0 x11])) = Some [RZ 5; RZ 0; RB (repeat xab 32); RZ 42; RB [x07]] /\
+  ral_source toy_keccak toy_recover {| gs_cur_idx := 3; gs_cur := gs_cur st; gs_prev_idx := 2; gs_prev := gs_prev st; gs_now := 40; gs_prev_exp := 40 |}
+    true (marshal (v 2 [sg 0 x11])) = None.
+Proof. vm_compute. repeat apply conj; reflexivity. Qed.
+End X11Example.
+
 Print Assumptions C07_go_formula.
 Print Assumptions C07_go_no_overflow.
 Print Assumptions C07_contracts_agree.
@@ -96,3 +162,6 @@ Print Assumptions C07_ral_parse_and_verify_accepts_iff.
 Print Assumptions C07_complete_accepted_incomplete_rejected.
 Print Assumptions C07_bounds.
 Print Assumptions C07_intersection.
+Print Assumptions C07_ral_source_is_the_hand_model.
+Print Assumptions C07_ral_source_accepts_iff.
+Print Assumptions C07_ral_source_decision_is_parse_and_verify.
